@@ -89,14 +89,25 @@ func verifH_c09_decode() {
 			}
 		}
 	}
+	if !verifSymbolic() && which == 0 && n >= 64 && verifU8("zerocoord")&3 == 1 {
+		// ... or with one coordinate zeroed (never a curve point: the group has prime order)
+		off := 32 * int(verifU8("whichcoord")&1)
+		for i := 0; i < 32; i++ {
+			m[off+i] = 0
+		}
+	}
 	var err error
 	need, coords, skip := 0, 0, 0
+	var g1 *G1
+	var g2 *G2
 	switch which {
 	case 0:
-		_, err = new(G1).Unmarshal(m)
+		g1 = new(G1)
+		_, err = g1.Unmarshal(m)
 		need, coords = 64, 2
 	case 1:
-		_, err = new(G2).Unmarshal(m)
+		g2 = new(G2)
+		_, err = g2.Unmarshal(m)
 		need, coords = 128, 4
 	case 2:
 		_, err = new(GT).Unmarshal(m)
@@ -107,6 +118,28 @@ func verifH_c09_decode() {
 	} else if err == nil {
 		for i := 0; i < coords; i++ {
 			verifAssert(c09Less(m[skip+32*i:skip+32*i+32], c09P()), "an accepted encoding has every coordinate below the field prime")
+		}
+		// ... and is either the all-zero encoding (point at infinity) or satisfies the curve equation
+		// (the opaque membership predicate, evaluated on the decoded coordinates): an encoding with only
+		// SOME zero coordinates is a pair of coordinates like any other
+		if which < 2 && n >= need {
+			zero := true
+			for _, b := range m[:need] {
+				zero = verifAll(zero, b == 0)
+			}
+			if verifSymbolic() {
+				on := false
+				if which == 0 {
+					on = verifModel_curvePoint_IsOnCurve(g1.p)
+				} else {
+					on = verifModel_twistPoint_IsOnCurve(g2.p)
+				}
+				verifAssert(verifAny(zero, on), "an accepted encoding is all-zero or a point on the curve")
+			} else if which == 0 && !zero {
+				verifAssert(g1.p.IsOnCurve() && !g1.p.IsInfinity(), "an accepted non-zero encoding decodes to a finite point on the curve")
+			} else if which == 1 && !zero {
+				verifAssert(g2.p.IsOnCurve() && !g2.p.IsInfinity(), "an accepted non-zero encoding decodes to a finite point on the curve")
+			}
 		}
 		verifReach("accepted")
 	}
